@@ -183,7 +183,11 @@ class Summary:
             self.sets[k].append(v)
 
     def violation(self, sig, what, replay):
-        self.violations.append({"signature": sig, "what": what, "replay": replay})
+        for v in self.violations:
+            if v["signature"] == sig:  # one witness per signature; further occurrences are counted
+                self.count("further_occurrences_of_" + sig)
+                return
+        self.violations.append({"signature": sig, "what": what[:1500], "replay": replay})
 
 
 def replay_mode(a):
@@ -366,9 +370,13 @@ def drive(a, tier, seed, jobs, t_start, budget, S, scratch):
                 q = next(q for q in plist[1:] if recs[q]["dr"] != base["dr"])
                 ex = bisect(bins, scratch, scope, op, seed, b, plist[0], q, opdefs[op]["words_out"], prefer="value")
                 if ex:
+                    ea, eb = ex["a"], ex["b"]
+                    dw = [i for i, (x, y) in enumerate(zip(ea.get("outputs", []), eb.get("outputs", []))) if x != y]
                     S.samples.append({"observation": "NaN payload/sign of a raw-f32 result differs between builds for an input that is "
                                       "itself non-finite (outside the documented domain of Vec3/Mat4/deg_to_rad: 'callers must ensure values are finite'); "
-                                      "after NaN canonicalisation the streams are identical", "op": op, **ex})
+                                      "after NaN canonicalisation the streams are identical", "op": op, "block": b, "index": ex["index"],
+                                      "nonfinite_inputs": [x for x in ea.get("inputs", []) if (int(x, 16) >> 23) & 0xFF == 0xFF],
+                                      "differing_output_words": {str(i): {ex["pa"]: ea["outputs"][i], ex["pb"]: eb["outputs"][i]} for i in dw[:6]}})
         if not differing:
             continue
         blocks_differing += 1
@@ -403,7 +411,7 @@ def drive(a, tier, seed, jobs, t_start, budget, S, scratch):
                 meta[x]["debug_assertions"] for x in non_profiles)
             sig = f"C19:profile-divergence:{op}:" + ("debug-assert-panic-vs-release-value" if dbg_only else "panic-in-some-profiles")
             what = (f"{op} on finite in-domain inputs {ea['inputs']} ({ea['inputs_f32']}): profile {ex['pa']} -> {ea['status']} "
-                    f"{ea.get('outputs_f32')}; profile {ex['pb']} -> {eb['status']} ({eb.get('panic_message')}). "
+                    f"{ea.get('outputs_f32', [])[:20]}; profile {ex['pb']} -> {eb['status']} ({eb.get('panic_message')}). "
                     f"Panicking profiles in this block: {pan_profiles}; value-returning: {non_profiles}; "
                     f"{recs[pan_profiles[0]]['panics'] if pan_profiles else 0} of {n} samples panic.")
         else:
@@ -481,8 +489,6 @@ def drive(a, tier, seed, jobs, t_start, budget, S, scratch):
         "nonfinite_trig_behaviour_by_profile": {p: emits[p]["nonfinite_trig"] for p in profs},
         "operations": {o["name"]: o["what"] for o in emits[ref]["ops"]},
         "build_wall_s": round(t_built - t_start, 1),
-        "block_digest_sample": [{"block": f"{k[0]}/{k[1]}#{k[2]}", "n": v[ref]["n"], "digests": {p: v[p]["d"][:16] for p in v}}
-                                for k, v in list(sorted(table.items()))[:0]],
     })
     S.count("blocks_compared_across_profiles", blocks_compared)
     S.count("blocks_differing", blocks_differing)
